@@ -99,23 +99,32 @@ def suite_history(ctx, case):
     c = getattr(CL, name)(apply_hard_core=hc)
     r = np.array(case['r'], dtype=float); u = np.array(case['u'], dtype=float)
     c.sigma = case['sigma']; c.potential = u
+    kept = []
     for step, (op, val) in enumerate(case['steps']):
         if op == 'scale_inplace': c.potential *= val
         elif op == 'set_inplace': c.potential[int(val[0]) % len(r):] = val[1]
         elif op == 'assign': c.potential = np.array(val, dtype=float)
         elif op == 'sigma': c.sigma = val
         g = np.array(case['gammas'][step], dtype=float)
+        if case.get('feedback') and step > 0 and kept:
+            g = kept[-1][0]                      # the array returned by the previous call is handed back as gamma (an iteration)
+        gcopy = g.copy()
         ucur = np.array(c.potential, dtype=float).copy(); sig = c.sigma
         with np.errstate(all='ignore'):
-            out = np.array(c.calculate(r, g), dtype=float)
+            ret = c.calculate(r, g)
+            out = np.array(ret, dtype=float).copy()
         sub = dict(case, steps=case['steps'][:step + 1])
-        fin = out[np.isfinite(out)]
-        scale = 1.0 + float(np.max(np.abs(g))) + (float(np.max(np.abs(fin))) if fin.size else 0.0)
+        pure = np.array_equal(g, gcopy, equal_nan=True) and all(np.array_equal(a, b, equal_nan=True) for a, b in kept)
+        ctx.pred('history', sub, pure, '%s: a call changed its gamma argument or an array returned by an earlier call' % name, key='C09:purity')
+        kept.append((ret, out.copy()))
+        g = gcopy
+        fin = out[np.isfinite(out)]; gfin = g[np.isfinite(g)]
+        scale = 1.0 + (float(np.max(np.abs(gfin))) if gfin.size else 0.0) + (float(np.max(np.abs(fin))) if fin.size else 0.0)
         if kind != 'ms':
             args = '%d %s | %s | %s | %s' % (1 if hc else 0, f2h(sig), fl(r), fl(g), fl(ucur))
             ctx.corr('history', sub, ctx.drv.ask('clos %s %s' % (kind, args)), fl(out), rtol=1e-12, scale=scale, what='%s.calculate after %s' % (name, op))
         inside = ~(r > sig) if hc else np.zeros(len(r), dtype=bool)
-        okc = (not hc) or np.array_equal(out[inside], (-1 - g)[inside])
+        okc = (not hc) or np.array_equal(out[inside], (-1 - g)[inside], equal_nan=True)
         pubs = published(kind, g, ucur)
         okp = any(agree(out[~inside], q[~inside], scale) for q in pubs)
         ctx.pred('history', sub, bool(okc) and (okp or kind == 'ms'), '%s: after %s on the same object the result is not the relation for the CURRENT potential/sigma' % (name, op),
@@ -161,6 +170,7 @@ def gen_history(rng):
     base['u'] = [x if abs(x) < 1e5 else 50.0 for x in base['u']]
     base['steps'] = steps
     base['gammas'] = [[rng.gauss(0, 1) for _ in range(L)] for _ in steps]
+    base['feedback'] = rng.random() < 0.4
     return base
 
 def generate(ctx):
